@@ -268,6 +268,12 @@ fn handle(line: &str) -> String {
             for _ in 0..24 {
                 let mut b = rpm::PackageBuilder::new("n", "1", "MIT", "noarch", "s").compression(rpm::CompressionType::None);
                 if !late_sd { b = b.source_date(sd); }
+                match p.get(4).copied().unwrap_or("-") {
+                    "host" => { b = b.build_host("h"); }
+                    "hostcookie" => { b = b.build_host("h").cookie("c"); }
+                    "duprec" => { if let Some((u, _)) = owners.first() { b = b.recommends(rpm::Dependency::user(u.as_str())); } }
+                    _ => {}
+                }
                 for (i, (u, g)) in owners.iter().enumerate() {
                     let dest = dests.get(i).cloned().unwrap_or_else(|| format!("/d/f{}", i));
                     b = b.with_file(&src, rpm::FileOptions::new(dest).user(u.clone()).group(g.clone())).unwrap();
@@ -279,6 +285,8 @@ fn handle(line: &str) -> String {
                 let mut o = Vec::new();
                 pkg.write(&mut o).unwrap();
                 outs.push(o);
+                // builds a second apart see different clocks
+                if p.get(4).map_or(false, |x| x.starts_with("host")) && outs.len() == 1 { std::thread::sleep(std::time::Duration::from_millis(1100)); }
             }
             let _ = std::fs::remove_file(&src);
             if !late.is_empty() {
@@ -520,10 +528,15 @@ fn handle(line: &str) -> String {
                 _ => b.compression(rpm::CompressionType::None),
             };
             let content = |i: usize, n: usize| (0..n).map(|k| (17 * i + 31 * k + 1) as u8).collect::<Vec<u8>>();
+            // variant: plain | utf8 (a two-byte character in every base name) | ghost (the first file carries %ghost)
+            let variant = p.get(3).copied().unwrap_or("plain");
+            let stem = if variant == "utf8" { "/d/\u{e9}" } else { "/d/f" };
             for i in (0..sizes.len()).rev() {
                 let f = dir.join(format!("f{}", i));
                 std::fs::write(&f, content(i, sizes[i])).unwrap();
-                b = b.with_file(&f, rpm::FileOptions::new(format!("/d/f{}", i))).unwrap();
+                let mut o = rpm::FileOptions::new(format!("{}{}", stem, i));
+                if variant == "ghost" && i == 0 { o = o.is_ghost(); }
+                b = b.with_file(&f, o).unwrap();
             }
             let pkg = b.build();
             let _ = std::fs::remove_dir_all(&dir);
@@ -538,7 +551,7 @@ fn handle(line: &str) -> String {
                         match e {
                             Err(_) => bad.push(format!("entry{}-err", i)),
                             Ok(f) => {
-                                if i < sizes.len() && (f.content != content(i, sizes[i]) || f.metadata.size != sizes[i] || f.metadata.path != std::path::PathBuf::from(format!("/d/f{}", i))) {
+                                if i < sizes.len() && (f.content != content(i, sizes[i]) || f.metadata.size != sizes[i] || f.metadata.path != std::path::PathBuf::from(format!("{}{}", stem, i))) {
                                     bad.push(format!("entry{}-mismatch", i));
                                 }
                             }
